@@ -58,6 +58,57 @@ func VerifC12MetaDecode() {
 	verifReach("end")
 }
 
+// C12.meta.limits — metadata AT the format limits (MaxNumKVs = MaxKeySize = MaxValueSize = 255,
+// all stored in one byte): whatever the decoder accepts must re-encode (Meta.Bytes panics on a
+// marshal error and is called on decoded metadata by manifest.readHeader) to the consumed bytes.
+// Shapes: (0) pair count 253..255 with minimal pairs (empty key, empty value; the last pair has a
+// symbolic 1-byte key), (1) one pair whose key and value lengths are each 253..255.
+// Each shape exact, one byte short (must be an error) and with one extra byte (ignored).
+func VerifC12MetaLimits() {
+	verifAllocLimit(4096)
+	var data []byte
+	if verifChoice("shape", 2) == 0 {
+		count := 253 + verifChoice("count", 3)
+		data = make([]byte, 1+2*count)
+		data[0] = byte(count)
+		// last pair: key of 1 symbolic byte, empty value
+		data[len(data)-2] = 1
+		data[len(data)-1] = verifU8("lastkey")
+		data = append(data, 0)
+	} else {
+		kl := 253 + verifChoice("keylen", 3)
+		vl := 253 + verifChoice("vallen", 3)
+		data = append(data, 1, byte(kl))
+		key := make([]byte, kl)
+		key[0] = verifU8("key0")
+		data = append(data, key...)
+		data = append(data, byte(vl))
+		val := make([]byte, vl)
+		val[vl-1] = verifU8("valN")
+		data = append(data, val...)
+	}
+	total := len(data)
+	switch verifChoice("trunc", 3) {
+	case 1:
+		data = data[:total-1]
+	case 2:
+		data = append(data, verifU8("extra"))
+	}
+	var m Meta
+	err := m.UnmarshalBinary(data)
+	if len(data) < total {
+		verifAssert(err != nil, "C12.meta.limits: truncated metadata was accepted")
+		verifReach("end")
+		return
+	}
+	verifAssert(err == nil, "C12.meta.limits: metadata within the format limits was rejected")
+	enc, merr := m.MarshalBinary()
+	verifAssert(merr == nil, "C12.meta.limits: metadata accepted by the decoder cannot be re-encoded (Meta.Bytes would panic)")
+	verifAssert(len(enc) == total && bytes.Equal(enc, data[:total]), "C12.meta.limits: decode/encode round trip differs from the input")
+	_ = m.Bytes()
+	verifReach("end")
+}
+
 // model of cid.CidFromBytes (cut): any input is either rejected or accepted with a length
 // between 1 and len(data); the real parser is library code outside the claim.
 func c12Model_cidFromBytes(data []byte) (int, cid.Cid, error) {
